@@ -25,7 +25,7 @@ echo "   exit=$O"
 ( cd "$WT" && git apply "$D/patch.diff" )
 echo "== [$ID] our checks on /repo + patch: $CHECKS"
 git -C /repo diff --quiet || { echo "/repo dirty; refusing"; exit 3; }
-trap 'git -C /repo checkout -- .' EXIT INT TERM
+trap 'git -C /repo checkout -- .; git -C /verif checkout -- evidence 2>/dev/null' EXIT INT TERM
 git -C /repo apply "$D/patch.diff" || { echo "patch does not apply to /repo"; exit 3; }
 for c in $CHECKS; do
   s=$(date +%s); out=$(/verif/check $c quick 2>&1); rc=$?; e=$(date +%s)
